@@ -26,6 +26,7 @@ type envTrunk struct {
 	wrote    int
 	readErr  error // returned instead of EOF at the end when set
 	mu       *sync.Mutex // when set, Write calls are atomic and scheduling points (as on a socket)
+	cutInside bool       // the failed Write got part of its bytes out (the stream now ends inside a frame)
 }
 
 var errTrunk = errors.New("trunk failure")
@@ -46,6 +47,7 @@ func (t *envTrunk) Write(b []byte) (int, error) {
 		rec := make([]byte, n)
 		copy(rec, b[:n])
 		t.writes = append(t.writes, rec)
+		t.cutInside = n > 0
 		return n, errTrunk
 	}
 	rec := make([]byte, len(b))
